@@ -741,7 +741,14 @@ class Fxp():
             raise ValueError('Not supported input type: {}'.format(type(val)))
 
         # convert to (numpy) ndarray
+        _val_in = val
         val = np.array(val)
+
+        # a list of python integers beyond 64 bits is turned into floats by numpy: keep the integers exact
+        if isinstance(_val_in, (list, tuple)) and val.dtype.kind == 'f' and val.size > 0 and np.max(np.abs(val)) >= 2**63:
+            _val_obj = np.array(_val_in, dtype=object)
+            if all(isinstance(v, int) for v in _val_obj.flatten()):
+                val = _val_obj
 
         if vdtype is None:
             vdtype = val.dtype
@@ -866,7 +873,7 @@ class Fxp():
 
             if val_dtype == object:       
                 # convert each element to int
-                new_val = np.array(list(map(int, new_val.flatten()))).reshape(new_val.shape).astype(val_dtype)
+                new_val = np.array(list(map(int, new_val.flatten())), dtype=val_dtype).reshape(new_val.shape)
             
             if index is not None:
                 self.val[index] = new_val
